@@ -114,6 +114,10 @@ h("c03_receive_step_q", "dp_peripheral.rs", PV, ["C03", "C04", "C08", "C14", "C1
 h("c03_receive_step_t", "dp_peripheral.rs", PV, ["C03", "C04", "C08", "C14", "C17"], panic_props=["C03", "C04", "C05"], tier="thorough", timeout_s=3600, mem_gb=14, weight=3, functions=PERF,
   bounds="inputs 0..=32 B, diagnostics buffer 0..=32 B, PDU 0..=40 B; otherwise as _q; unwind 44", obligation="as c03_receive_step_q")
 
+h("c08_request_pair_q", "dp_peripheral.rs", PV, ["C08"], panic_props=["C08", "C05"], timeout_s=1800, mem_gb=12, weight=3, functions=PERF + ["Telegram::deserialize (to read the wire)"],
+  bounds="ANY peripheral state under Inv_DP -> real transmit (req1) -> interlude {request_diagnostics()?, output write?, (any FDL-admissible reply with PDU <= 8 B | time-out), request_diagnostics()?} -> real transmit (req2) [-> real transmit (req3) after an Offline event]; max_retry_limit symbolic 1..15; unwind 20",
+  obligation="judged on decoded wire bytes: same FCB with FCV=1 => same destination/SAPs/service and no accepted reply in between; accepted reply => toggled FCB with FCV=1; first request after the Offline event is a diagnostics request with FCV=0/FCB=1")
+
 PROPERTIES = {
     "C09": {
         "claim": "Bounded: for every header (DA/SA 0..127, any SAP options, any function code) and every payload within the stated length/content bounds the real encoder's bytes equal an independent reference frame encoder, the reported lengths agree, and the real decoder returns the identical telegram consuming exactly the frame. Function codes: exhaustive over all bytes and all values.",
@@ -134,6 +138,13 @@ PROPERTIES = {
         "assumptions": ["replies restricted to the FDL admission predicate (C15)", "image lengths 0..=4 (quick) / 0..=32 (thorough) with symbolic content; lengths up to 244 are not explored",
                         "whether OK-status replies update the image is left open by the property; the code accepts them (allowed by the oracle), RDL/RDH replies are allowed either way"],
         "outside": ["images longer than 32 bytes"],
+    },
+    "C08": {
+        "claim": "Bounded, inductive over pairs: from EVERY peripheral state under Inv_DP, for every interlude of user calls, one admissible reply or a time-out between two consecutive real transmit_telegram calls, the decoded wire requests obey the frame-count-bit discipline (same bit with FCV=1 only for a retransmission of the same service to the same destination without an accepted reply in between; toggled with FCV=1 after every accepted reply; FCV=0/FCB=1 for a new peripheral and after the Offline event), a request is transmitted only while retry_count <= max_retry_limit (<= 1+limit transmissions of an unanswered request, counter proved to count every transmission), the Offline event is raised exactly when the limit is exceeded and only while live, and an offline peripheral is only probed with diagnostics requests.",
+        "assumptions": ["replies restricted to the FDL admission predicate (C15)", "reply PDU <= 8 bytes, process images <= 2 bytes in the pair harness (contents symbolic)",
+                        "'accepted reply' = a reply that changed observable state (bring-up state, event, reported diagnostics, input image)",
+                        "several peripherals: per-peripheral relation plus C14's routing lemma (a callback touches only the addressed slot)"],
+        "outside": ["histories are covered by induction over Inv_DP, not enumerated; triples of requests beyond the Offline case"],
     },
     "C17": {
         "claim": "Bounded: for every diagnostics reply (PDU <= 10 / 40 bytes) the reported flags, ident number and master address equal the reply bytes; extended diagnostics are stored iff flagged, a buffer exists and they fit, otherwise the stored ones are unchanged; iterating ANY stored byte string (<= 8 / 24 bytes) terminates without panic within length+1 calls, yields exactly the blocks an independent reference parser finds (type, position, length, decoded fields), and yields nothing after the first malformed block; also with no buffer attached, with logging enabled.",
